@@ -221,6 +221,61 @@ def check_percentages():
     return out
 
 
+def own_format(x):
+    """the documented display of a number, computed here (exact arithmetic) and not by the code under test; None where the recorded
+    double-rounding finding could interfere (Fractions with other denominators)"""
+    q = Fraction(x)
+    if not isinstance(x, float):
+        if q.denominator == 1:
+            return str(q.numerator)
+        if q.denominator in ALLOWED:
+            w, r = divmod(q.numerator, q.denominator)
+            return ("%d " % w if w else "") + "%d/%d" % (r, q.denominator)
+        return None
+    I = q.numerator // q.denominator
+    d = max(0, 3 - (len(str(I)) if I else 0))
+    n = rhe(q * 10 ** d)
+    text = "%d" % n if d == 0 else ("%0*d" % (d + 1, n))[:-d] + "." + ("%0*d" % (d + 1, n))[-d:]
+    return text.rstrip("0").rstrip(".") if "." in text else text
+
+
+def check_scaled_display():
+    """numbers written in braces inside names and descriptions, shown after scaling: in the ingredient cell, in every reference to it (link
+    text = the name of a sub recipe whose title is hidden) and in step descriptions - exactly k times the written number, displayed as documented"""
+    from recipe_grid.compiler import compile as rg_compile
+    from recipe_grid.renderer.html import render_recipe_tree
+    from .. import htmltok
+    out = []
+    written = [("8", 8), ("3", 3), ("1/2", Fraction(1, 2)), ("2 1/4", Fraction(9, 4)), ("2.5", 2.5), ("0.125", 0.125), ("2.01", 2.01), ("1234567890123.0", 1234567890123.0),
+               ("999999999999999.0", 999999999999999.0), ("123456789012345", 123456789012345), ("9007199254740993", 9007199254740993), ("33.3", 33.3), ("0.07", 0.07)]
+    for text, v in written:
+        src = ("4 eggs {(makes %s halves)}\n{rest %s minutes then fry}(1/2 of the eggs {(makes %s halves)}, {%s} pinches salt)\n"
+               "boil(remaining eggs {(makes %s halves)})\nserve := top(bread {for %s})\neat(1/3 of serve, rest of serve)" % ((text,) * 6))
+        try:
+            recipes = rg_compile([src])
+        except Exception as e:  # noqa
+            out.append(("C11:scaled-number-shown-wrong", "compile raises %r for %r" % (e, src)))
+            continue
+        for k in (1, 2, 5, Fraction(3, 2), Fraction(1, 2), Fraction(1), 0.5, 1.0, 3.0):
+            if isinstance(v, float) and v * k >= 1e15 or (isinstance(k, float) and not isinstance(v, float) and v > 2 ** 53):
+                continue
+            want = own_format(v * k)
+            if want is None:
+                continue
+            shown = []
+            for t in recipes[0].scale(k).recipe_trees:
+                root, _ = htmltok.tree(render_recipe_tree(t, "r-"))
+                for n in root.iter():
+                    if n.tag in ("td", "li"):
+                        cell = " ".join(n.text().replace("\u2044", "/").split())
+                        for m in re.finditer(r"\(makes (.*?) halves\)|rest (.*?) minutes|^(.*?) pinches|for (\S.*)$", cell):
+                            shown.append(next(g for g in m.groups() if g is not None))
+            if len(shown) < 6 or any(x != want for x in shown):
+                out.append(("C11:scaled-number-shown-wrong", "{%s} scaled by %r must read %r in every cell; cells show %r" % (text, k, want, shown)))
+                break
+    return out
+
+
 def oracle(run):
     run.case(("percentages",), True, kind="percentages")
     seen = set()
@@ -228,6 +283,9 @@ def oracle(run):
         if sig not in seen:
             seen.add(sig)
             run.violate(sig, detail, {"percentages": True})
+    run.case(("scaled-display",), True, kind="scaled-display")
+    for sig, detail in check_scaled_display()[:3]:
+        run.violate(sig, detail, {"scaled_display": True})
     run.case(("reader",), True, kind="reader")
     for sig, detail in check_reader():
         run.violate(sig, detail, {"reader": True})
@@ -248,6 +306,11 @@ def oracle(run):
 def replay(run, obj):
     if obj["replay"].get("percentages"):
         res = check_percentages()
+        for r in res:
+            print(*r)
+        return bool(res)
+    if obj["replay"].get("scaled_display"):
+        res = check_scaled_display()
         for r in res:
             print(*r)
         return bool(res)
